@@ -15,11 +15,14 @@ From FJ Require Import Lib.Base.
      flipjump/fjm/fjm_writer.py                 add_data, add_segment (every check), write_to_file (when the file is opened,
                                                 what struct.pack accepts)
    The operator semantics are those of Model/Expr.v (C12): `Expr.apply_op`.
+   The code modelled is the tree AFTER the fix commits 519ec12 (get_minimized_expr wraps arithmetic errors: F7),
+   b770ddf (flip / jump / wflip words are range-checked when the op is inserted: F8), 0ef0f9a (a pad that runs past
+   2^w bits is refused: F9, partly) and 3bd0fc0 (Writer.add_data / add_segment validate what they are given).
 
    What is abstracted (and why it does not matter for the classification of failures):
-   * words are kept as two bags (flip words, jump words) instead of one list: write_to_file only asks whether every word
-     fits its struct format, and versions 2/3 mask exactly the jump (odd-index) words; padding zeros are not materialised,
-     the COUNT is (that is the MemoryError exit);
+   * fj_words / wflip_words / Writer.data are kept as bags of the values stored in them (positions are irrelevant: add_data
+     and struct.pack only ask whether every word fits w bits); padding zeros are not materialised, the COUNT is (that is
+     the MemoryError exit);
    * macro-start labels ("<path>---:start:") are not inserted: their names contain ':' so no source label can collide;
    * the interpreter's resources are parameters of `config`: c_exprlim (deepest Expr tree the recursive traversals survive),
      c_replim (largest rep count that terminates within the watchdog), c_padlim (largest pad count that can be materialised),
@@ -45,10 +48,12 @@ Inductive libkind :=
   (* FlipJumpExprException *)
   | KNegPow | KBadMath | KBadLabelSwap | KRepArgs | KCantEvalLabel
   (* FlipJumpPreprocessorException (macro_resolve_error) *)
-  | KMacroUndefined | KMacroDepth | KLabelTwice | KRepTimes | KPadEval | KPadNonPositive | KPadUnaligned
+  | KMacroUndefined | KMacroDepth | KLabelTwice | KRepTimes | KPadEval | KPadNonPositive | KPadUnaligned | KPadTooBig
   | KSegmentEval | KSegmentUnaligned | KReserveEval | KReserveUnaligned
   (* FlipJumpAssemblerException *)
-  | KOpEval | KWflipValue | KBoundsUnaligned | KNoSpace | KAddSegment | KNoFirstOp.
+  | KOpEval | KOpRange | KBoundsUnaligned | KNoSpace | KAddSegment | KNoFirstOp
+  (* FlipJumpWriteFjmException *)
+  | KWriterData.
 
 Inductive res (A : Type) := Ok (a : A) | LibError (k : libkind) | RawExn (x : rawexn).
 Arguments Ok {A} a.
@@ -125,9 +130,17 @@ Fixpoint has_unprintable (e : expr) : bool :=
   | EOp _ args => (fix any (l : list expr) : bool := match l with [] => false | a :: t => has_unprintable a || any t end) args
   end.
 
-(* get_minimized_expr(op, params): no try/except *)
+(* get_minimized_expr(op, params): `except FlipJumpExprException: raise`, `except Exception as e: raise
+   FlipJumpExprException(f'... bad math operation ({op}): {str(Expr((op, params)))}.')` (fix 519ec12) *)
 Definition get_minimized_expr (cfg : config) (o : opname) (params : list expr) : res expr :=
-  if forallb is_int params then do z <- op_apply cfg o (ints_of params); Ok (EInt z) else Ok (EOp o params).
+  if forallb is_int params then
+    match op_apply cfg o (ints_of params) with
+    | Ok z => Ok (EInt z)
+    | LibError k => LibError k
+    | RawExn Hang => RawExn Hang
+    | RawExn _ => if has_unprintable (EOp o params) then RawExn ValueError else LibError KBadMath
+    end
+  else Ok (EOp o params).
 
 (* what the grammar actions compute bottom-up while the LALR driver reduces (no Python recursion involved) *)
 Fixpoint fold_expr (cfg : config) (e : expr) : res expr :=
@@ -253,16 +266,23 @@ Record pstate := mkp {
   p_addr : Z;                 (* curr_address *)
   p_labels : dict Z;          (* labels *)
   p_pos : list string;        (* keys of labels_code_positions *)
-  p_ops : list lastop;        (* result_ops, most recent first *)
+  p_ops : list lastop;        (* result_ops after the first NewSegment, most recent first *)
+  p_w0 : Z;                   (* wflip_start_address of the first NewSegment (the one __init__ appends; so popleft() in
+                                 labels_resolve always finds it) *)
   p_seg : N                   (* curr_segment_index *)
 }.
 
-Fixpoint patch_wflip (rops : list lastop) (v : Z) : list lastop :=
+(* last_new_segment.wflip_start_address = v, when the last NewSegment is in the list *)
+Fixpoint patch_wflip (rops : list lastop) (v : Z) : option (list lastop) :=
   match rops with
-  | [] => []
-  | LNewSeg s _ :: r => LNewSeg s v :: r
-  | o :: r => o :: patch_wflip r v
+  | [] => None
+  | LNewSeg s _ :: r => Some (LNewSeg s v :: r)
+  | o :: r => match patch_wflip r v with Some r' => Some (o :: r') | None => None end
   end.
+
+(* patch_last_wflip_address *)
+Definition patch_last (st : pstate) : list lastop * Z :=
+  match patch_wflip (p_ops st) (p_addr st) with Some l => (l, p_w0 st) | None => (p_ops st, p_addr st) end.
 
 Definition wflip_start_label (i : N) : string := "_.wflip_area_start_" ++ N_to_string i.
 
@@ -271,23 +291,26 @@ Definition wflip_start_label (i : N) : string := "_.wflip_area_start_" ++ N_to_s
 Definition insert_label (st : pstate) (name : string) : res pstate :=
   if dict_mem (p_labels st) name then
     if existsb (String.eqb name) (p_pos st) then LibError KLabelTwice else RawExn KeyError
-  else Ok (mkp (p_addr st) (dict_set (p_labels st) name (p_addr st)) (name :: p_pos st) (p_ops st) (p_seg st)).
+  else Ok (mkp (p_addr st) (dict_set (p_labels st) name (p_addr st)) (name :: p_pos st) (p_ops st) (p_w0 st) (p_seg st)).
 
 Definition insert_segment (st : pstate) (start : Z) : pstate :=
+  let '(ops, w0) := patch_last st in
   mkp start (dict_set (p_labels st) (wflip_start_label (p_seg st)) (p_addr st)) (p_pos st)
-      (LNewSeg start (-1) :: patch_wflip (p_ops st) (p_addr st)) (p_seg st + 1)%N.
+      (LNewSeg start (-1) :: ops) w0 (p_seg st + 1)%N.
 
 Definition insert_reserve (st : pstate) (size : Z) : pstate :=
-  mkp (p_addr st + size) (p_labels st) (p_pos st) (LReserve (p_addr st + size) :: p_ops st) (p_seg st).
+  mkp (p_addr st + size) (p_labels st) (p_pos st) (LReserve (p_addr st + size) :: p_ops st) (p_w0 st) (p_seg st).
 
 Definition align_current_address (cfg : config) (st : pstate) (n : Z) : res pstate :=
   let dw := 2 * c_w cfg in
   if negb (p_addr st mod dw =? 0) then (if unprintable (p_addr st) then RawExn ValueError else LibError KPadUnaligned)
   else let k := ((- p_addr st) / dw) mod n in
-       Ok (mkp (p_addr st + k * dw) (p_labels st) (p_pos st) (LPadding k :: p_ops st) (p_seg st)).
+       if 2 ^ c_w cfg <? p_addr st + k * dw then        (* fix 0ef0f9a; the message prints n, the address and k in decimal *)
+         (if unprintable n || unprintable (p_addr st) || unprintable k then RawExn ValueError else LibError KPadTooBig)
+       else Ok (mkp (p_addr st + k * dw) (p_labels st) (p_pos st) (LPadding k :: p_ops st) (p_w0 st) (p_seg st)).
 
 Definition push_op (st : pstate) (a : Z) (o : lastop) : pstate :=
-  mkp a (p_labels st) (p_pos st) (o :: p_ops st) (p_seg st).
+  mkp a (p_labels st) (p_pos st) (o :: p_ops st) (p_w0 st) (p_seg st).
 
 (* the exception a `calculate_*` helper of ops.py lets through: FlipJumpExprException is re-labelled by the caller,
    anything else passes *)
@@ -311,102 +334,113 @@ Section Resolve.
 Variable cfg : config.
 Variable macros : macro_dict.
 
+Definition callee_t := pstate -> macro_name -> list expr -> string -> res pstate.
+
+(* `for i in range(rep_times)`: calculate_arguments(i), then the recursive call *)
+Fixpoint rep_loop (call : callee_t) (callee : macro_name) (hyg : string) (cargs : list expr) (path : N -> string)
+                  (k : nat) (i : Z) (st : pstate) {struct k} : res pstate :=
+  match k with
+  | O => Ok st
+  | S k' =>
+    do iargs <- relabel (eval_new_list cfg [(hyg, EInt i)] cargs) KRepArgs;
+    do st' <- call st callee iargs (path (Z.to_N i));
+    rep_loop call callee hyg cargs path k' (i + 1) st'
+  end.
+
+(* one iteration of the `for op in current_macro.ops` loop of resolve_macro_aux.
+   rec = None: the call tree is already max_recursion_depth deep (any further call is refused by prepare_macro_call) *)
+Definition resolve_op (rec : option callee_t) (sg : dict expr) (prefix : string) (st : pstate) (op : stmt) : res pstate :=
+  match op with
+  | SLabel name _ =>
+    match dict_get sg name with                      (* Label.eval_name *)
+    | None => insert_label st name
+    | Some (ELbl s) => insert_label st s
+    | Some v => if has_unprintable v then RawExn ValueError else LibError KBadLabelSwap
+    end
+  | SFlipJump f j _ =>
+    let a := p_addr st + 2 * c_w cfg in
+    let sg' := dict_set sg "$" (EInt a) in
+    do f' <- eval_new cfg sg' f; do j' <- eval_new cfg sg' j;
+    Ok (push_op st a (LFlipJump f' j'))
+  | SWordFlip x v r _ =>
+    let a := p_addr st + 2 * c_w cfg in
+    let sg' := dict_set sg "$" (EInt a) in
+    do x' <- eval_new cfg sg' x; do v' <- eval_new cfg sg' v; do r' <- eval_new cfg sg' r;
+    Ok (push_op st a (LWordFlip x' v' r'))
+  | SPad e _ =>
+    do e' <- eval_new cfg sg e;
+    (* "Can't evaluate how much to pad in 'pad {op.ops_alignment}'" prints the expression *)
+    do n <- match exact_eval cfg (p_labels st) e' with
+            | LibError _ => if has_unprintable e' then RawExn ValueError else LibError KPadEval
+            | r => r
+            end;
+    if n <=? 0 then (if unprintable n then RawExn ValueError else LibError KPadNonPositive)
+    else align_current_address cfg st n
+  | SSegment e _ =>
+    do e' <- eval_new cfg sg e;
+    do a <- relabel (exact_eval cfg (p_labels st) e') KSegmentEval;
+    if negb (a mod c_w cfg =? 0) then LibError KSegmentUnaligned else Ok (insert_segment st a)
+  | SReserve e _ =>
+    do e' <- eval_new cfg sg e;
+    do r <- relabel (exact_eval cfg (p_labels st) e') KReserveEval;
+    if negb (r mod c_w cfg =? 0) then LibError KReserveUnaligned else Ok (insert_reserve st r)
+  | SMacroCall name cargs pos =>
+    do cargs' <- eval_new_list cfg sg cargs;
+    let callee := call_name name cargs' in
+    match find_macro macros callee with
+    | None => LibError KMacroUndefined
+    | Some _ =>
+      match rec with
+      | None => LibError KMacroDepth
+      | Some call => call st callee cargs' (path_head prefix ++ pos_short pos ++ ":" ++ macro_name_str callee)
+      end
+    end
+  | SRepCall times it name cargs pos =>
+    let hyg := path_head prefix ++ pos_short pos ++ ":rep:" ++ it in
+    do renamed <- eval_new_list cfg [(it, ELbl hyg)] cargs;            (* rename_iterator *)
+    do times' <- eval_new cfg sg times;
+    do cargs' <- eval_new_list cfg sg renamed;
+    do n <- relabel (exact_eval cfg (p_labels st) times') KRepTimes;   (* get_rep_times *)
+    if n =? 0 then Ok st
+    else
+      let callee := call_name name cargs' in
+      match find_macro macros callee with
+      | None => LibError KMacroUndefined
+      | Some _ =>
+        match rec with
+        | None => LibError KMacroDepth
+        | Some call =>
+          if c_replim cfg <? n then RawExn Hang
+          else rep_loop call callee hyg cargs'
+                        (fun i => path_head prefix ++ pos_short pos ++ ":rep" ++ N_to_string i ++ ":" ++ macro_name_str callee)
+                        (Z.to_nat n) 0 st
+        end
+      end
+  end.
+
+Fixpoint resolve_ops (step : pstate -> stmt -> res pstate) (ops : list stmt) (st : pstate) : res pstate :=
+  match ops with
+  | [] => Ok st
+  | op :: rest => do st' <- step st op; resolve_ops step rest st'
+  end.
+
 (* resolve_macro_aux; fuel = how many more macro calls may be nested (len(curr_tree) <= max_recursion_depth) *)
 Fixpoint resolve_aux (fuel : nat) (st : pstate) (mn : macro_name) (args : list expr) (prefix : string) {struct fuel}
   : res pstate :=
   match find_macro macros mn with
   | None => RawExn KeyError                                   (* self.macros[macro_name] *)
   | Some m =>
-    let sg := params_dictionary m args prefix in
-    (fix loop (ops : list stmt) (st : pstate) {struct ops} : res pstate :=
-       match ops with
-       | [] => Ok st
-       | op :: rest =>
-         do st' <-
-           match op with
-           | SLabel name _ =>
-             match dict_get sg name with                      (* Label.eval_name *)
-             | None => insert_label st name
-             | Some (ELbl s) => insert_label st s
-             | Some v => if has_unprintable v then RawExn ValueError else LibError KBadLabelSwap
-             end
-           | SFlipJump f j _ =>
-             let a := p_addr st + 2 * c_w cfg in
-             let sg' := dict_set sg "$" (EInt a) in
-             do f' <- eval_new cfg sg' f; do j' <- eval_new cfg sg' j;
-             Ok (push_op st a (LFlipJump f' j'))
-           | SWordFlip x v r _ =>
-             let a := p_addr st + 2 * c_w cfg in
-             let sg' := dict_set sg "$" (EInt a) in
-             do x' <- eval_new cfg sg' x; do v' <- eval_new cfg sg' v; do r' <- eval_new cfg sg' r;
-             Ok (push_op st a (LWordFlip x' v' r'))
-           | SPad e _ =>
-             do e' <- eval_new cfg sg e;
-             (* "Can't evaluate how much to pad in 'pad {op.ops_alignment}'" prints the expression *)
-             do n <- match exact_eval cfg (p_labels st) e' with
-                     | LibError _ => if has_unprintable e' then RawExn ValueError else LibError KPadEval
-                     | r => r
-                     end;
-             if n <=? 0 then (if unprintable n then RawExn ValueError else LibError KPadNonPositive)
-             else align_current_address cfg st n
-           | SSegment e _ =>
-             do e' <- eval_new cfg sg e;
-             do a <- relabel (exact_eval cfg (p_labels st) e') KSegmentEval;
-             if negb (a mod c_w cfg =? 0) then LibError KSegmentUnaligned else Ok (insert_segment st a)
-           | SReserve e _ =>
-             do e' <- eval_new cfg sg e;
-             do r <- relabel (exact_eval cfg (p_labels st) e') KReserveEval;
-             if negb (r mod c_w cfg =? 0) then LibError KReserveUnaligned else Ok (insert_reserve st r)
-           | SMacroCall name cargs pos =>
-             do cargs' <- eval_new_list cfg sg cargs;
-             let callee := call_name name cargs' in
-             match find_macro macros callee with
-             | None => LibError KMacroUndefined
-             | Some _ =>
-               match fuel with
-               | O => LibError KMacroDepth
-               | S fuel' => resolve_aux fuel' st callee cargs' (path_head prefix ++ pos_short pos ++ ":" ++ macro_name_str callee)
-               end
-             end
-           | SRepCall times it name cargs pos =>
-             let hyg := path_head prefix ++ pos_short pos ++ ":rep:" ++ it in
-             do renamed <- eval_new_list cfg [(it, ELbl hyg)] cargs;            (* rename_iterator *)
-             do times' <- eval_new cfg sg times;
-             do cargs' <- eval_new_list cfg sg renamed;
-             do n <- relabel (exact_eval cfg (p_labels st) times') KRepTimes;   (* get_rep_times *)
-             if n =? 0 then Ok st
-             else
-               let callee := call_name name cargs' in
-               match find_macro macros callee with
-               | None => LibError KMacroUndefined
-               | Some _ =>
-                 match fuel with
-                 | O => LibError KMacroDepth
-                 | S fuel' =>
-                   if c_replim cfg <? n then RawExn Hang
-                   else
-                     (fix reploop (k : nat) (i : Z) (st : pstate) {struct k} : res pstate :=
-                        match k with
-                        | O => Ok st
-                        | S k' =>
-                          do iargs <- relabel (eval_new_list cfg [(hyg, EInt i)] cargs') KRepArgs;   (* calculate_arguments *)
-                          do st' <- resolve_aux fuel' st callee iargs
-                                      (path_head prefix ++ pos_short pos ++ ":rep" ++ N_to_string (Z.to_N i) ++ ":" ++ macro_name_str callee);
-                          reploop k' (i + 1) st'
-                        end) (Z.to_nat n) 0 st
-                 end
-               end
-           end;
-         loop rest st'
-       end) (m_ops m) st
+    resolve_ops (resolve_op (match fuel with O => None | S fuel' => Some (resolve_aux fuel') end)
+                            (params_dictionary m args prefix) prefix) (m_ops m) st
   end.
 
-Definition pre_init : pstate := mkp 0 [] [] [LNewSeg 0 (-1)] 0%N.
+Definition pre_init : pstate := mkp 0 [] [] [] (-1) 0%N.
 
-(* resolve_macros: the op queue (in order) and the label dictionary *)
-Definition resolve_macros : res (list lastop * dict Z) :=
+(* resolve_macros: the wflip start of the first segment, the rest of the op queue (in order), the label dictionary *)
+Definition resolve_macros : res (Z * list lastop * dict Z) :=
   do st <- resolve_aux (c_maxdepth cfg) pre_init main_macro_name [] "";
-  Ok (rev (patch_wflip (p_ops st) (p_addr st)), p_labels st).
+  let '(ops, w0) := patch_last st in
+  Ok (w0, rev ops, p_labels st).
 
 End Resolve.
 
@@ -415,7 +449,8 @@ End Resolve.
 
 Record wstate := mkw {
   w_segs : list (Z * Z * Z * Z);   (* segments *)
-  w_dlen : Z                        (* len(self.data) *)
+  w_dlen : Z;                       (* len(self.data) *)
+  w_data : list Z                   (* the values in self.data (as a bag) *)
 }.
 
 Definition is_collision (s1 e1 s2 e2 : Z) : bool :=
@@ -424,23 +459,32 @@ Definition is_collision (s1 e1 s2 e2 : Z) : bool :=
 
 Definition relative_version (cfg : config) : bool := (2 <=? c_ver cfg)%N.
 
-Inductive add_res := AddOk (w : wstate) | AddRefused | AddIndexError.
-
-(* Writer.add_segment: every check; _update_to_relative_jumps indexes self.data[data_start + i] *)
-Definition writer_add_segment (cfg : config) (wr : wstate) (start len dstart dlen : Z) : add_res :=
-  if len <=? 0 then AddRefused
-  else if len <? dlen then AddRefused
-  else if (start mod 2 =? 1) || (len mod 2 =? 1) then AddRefused
+(* Writer.add_segment: every check (None = FlipJumpWriteFjmException).  _update_to_relative_jumps indexes
+   self.data[data_start + i], i < data_length: inside the list by the data-range check that precedes it. *)
+Definition writer_add_segment (cfg : config) (wr : wstate) (start len dstart dlen : Z) : option wstate :=
+  if len <=? 0 then None
+  else if len <? dlen then None
+  else if (start mod 2 =? 1) || (len mod 2 =? 1) then None
+  else if dlen mod 2 =? 1 then None
+  else if (start <? 0) || (2 ^ 64 <=? start + len) then None
+  else if (dstart <? 0) || (dlen <? 0) || (w_dlen wr <? dstart + dlen) then None
   else if existsb (fun sg => match sg with (s, l, _, _) => is_collision s (s + l - 1) start (start + len - 1) end)
-                  (w_segs wr) then AddRefused
+                  (w_segs wr) then None
   else if relative_version cfg && negb (dlen =? 0) &&
           existsb (fun sg => match sg with (_, _, ds, dl) =>
                      negb (dl =? 0) && is_collision ds (ds + dl - 1) dstart (dstart + dlen - 1) end) (w_segs wr)
-       then AddRefused
-  else if relative_version cfg && (w_dlen wr <? dstart + dlen) then AddIndexError
-  else AddOk (mkw (w_segs wr ++ [(start, len, dstart, dlen)]) (w_dlen wr)).
+       then None
+  else Some (mkw (w_segs wr ++ [(start, len, dstart, dlen)]) (w_dlen wr) (w_data wr)).
 
-Definition in_memory (cfg : config) (a : Z) : bool := (0 <=? a) && (a <? 2 ^ c_w cfg).
+Definition word_ok (cfg : config) (x : Z) : bool := (0 <=? x) && (x <? 2 ^ c_w cfg).
+Definition in_memory (cfg : config) (a : Z) : bool := word_ok cfg a.
+
+(* Writer.add_data: `for word in data: if word < 0 or word >= (1 << w): raise FlipJumpWriteFjmException(f"data word {word} ...")` *)
+Definition writer_add_data (cfg : config) (wr : wstate) (words : list Z) (n : Z) : res wstate :=
+  match find (fun x => negb (word_ok cfg x)) words with
+  | Some bad => if unprintable bad then RawExn ValueError else LibError KWriterData
+  | None => Ok (mkw (w_segs wr) (w_dlen wr + n) (words ++ w_data wr))
+  end.
 
 Definition validate_addresses (cfg : config) (first last : Z) : option libkind :=
   if negb (first mod c_w cfg =? 0) || negb (last mod c_w cfg =? 0) then Some KBoundsUnaligned
@@ -448,21 +492,23 @@ Definition validate_addresses (cfg : config) (first last : Z) : option libkind :
   else if negb (in_memory cfg (last - 1)) then Some KNoSpace
   else None.
 
-(* add_segment_to_fjm; n = len(fj_words + wflip_words) *)
-Definition add_segment_to_fjm (cfg : config) (wr : wstate) (first last n : Z) : res (wstate * bool) :=
+(* add_segment_to_fjm; words = the values of fj_words + wflip_words, n = len(fj_words + wflip_words);
+   the boolean says whether the two lists were cleared *)
+Definition add_segment_to_fjm (cfg : config) (wr : wstate) (first last : Z) (words : list Z) (n : Z) : res (wstate * bool) :=
   match validate_addresses cfg first last with
   | Some k => LibError k
   | None =>
     if first =? last then Ok (wr, false)
     else
       let dstart := w_dlen wr in
-      let wr1 := mkw (w_segs wr) (w_dlen wr + n) in
+      do wr1 <- writer_add_data cfg wr words n;
       match writer_add_segment cfg wr1 (first / c_w cfg) ((last - first) / c_w cfg) dstart n with
-      | AddRefused => LibError KAddSegment
-      | AddIndexError => RawExn IndexError
-      | AddOk wr2 => Ok (wr2, true)
+      | None => LibError KAddSegment
+      | Some wr2 => Ok (wr2, true)
       end
   end.
+
+Inductive wlist := InFj | InWf.
 
 Record bstate := mkb {
   b_first : Z;                        (* first_address *)
@@ -471,29 +517,33 @@ Record bstate := mkb {
   b_nwf : Z;                          (* len(wflip_words) *)
   b_pads : list (Z * Z);              (* padding_ops_indices as runs (first index, how many), top of the stack first *)
   b_dict : list ((Z * list Z) * Z);   (* wflips_dict: (return_address, remaining flip addresses ascending) -> chain entry *)
-  b_flips : list Z;                   (* every flip word stored so far *)
-  b_jumps : list Z;                   (* every jump word stored so far *)
+  b_fjw : list Z;                     (* the non-zero values stored in fj_words *)
+  b_wfw : list Z;                     (* the non-zero values stored in wflip_words *)
   b_wr : wstate
 }.
 
-Definition set_wr (st : bstate) (wr : wstate) (cleared : bool) : bstate :=
-  mkb (b_first st) (b_nextw st) (if cleared then 0 else b_nfj st) (if cleared then 0 else b_nwf st) (b_pads st)
-      (b_dict st) (b_flips st) (b_jumps st) wr.
+Definition store (st : bstate) (l : wlist) (x : Z) : bstate :=
+  match l with
+  | InFj => mkb (b_first st) (b_nextw st) (b_nfj st) (b_nwf st) (b_pads st) (b_dict st) (x :: b_fjw st) (b_wfw st) (b_wr st)
+  | InWf => mkb (b_first st) (b_nextw st) (b_nfj st) (b_nwf st) (b_pads st) (b_dict st) (b_fjw st) (x :: b_wfw st) (b_wr st)
+  end.
 
-Definition insert_fj_op (cfg : config) (st : bstate) (f j : Z) : bstate :=
-  mkb (b_first st) (b_nextw st) (b_nfj st + 2) (b_nwf st) (b_pads st) (b_dict st) (f :: b_flips st) (j :: b_jumps st) (b_wr st).
+(* insert_fj_op (fix b770ddf: both words are range-checked; FlipJumpAssemblerException "Not enough space ...") *)
+Definition insert_fj_op (cfg : config) (st : bstate) (f j : Z) : res bstate :=
+  if negb (in_memory cfg f) || negb (in_memory cfg j) then LibError KOpRange
+  else Ok (mkb (b_first st) (b_nextw st) (b_nfj st + 2) (b_nwf st) (b_pads st) (b_dict st) (f :: j :: b_fjw st) (b_wfw st) (b_wr st)).
 
-(* get_wflip_spot: the address of the op that will hold the next chain element *)
-Definition get_wflip_spot (cfg : config) (st : bstate) : bstate * Z :=
+(* get_wflip_spot: the list and the address of the op that will hold the next chain element *)
+Definition get_wflip_spot (cfg : config) (st : bstate) : bstate * (wlist * Z) :=
   match b_pads st with
   | (base, cnt) :: rest =>
     let idx := base + 2 * (cnt - 1) in
     (mkb (b_first st) (b_nextw st) (b_nfj st) (b_nwf st) (if 1 <? cnt then (base, cnt - 1) :: rest else rest)
-         (b_dict st) (b_flips st) (b_jumps st) (b_wr st),
-     b_first st + c_w cfg * idx)
+         (b_dict st) (b_fjw st) (b_wfw st) (b_wr st),
+     (InFj, b_first st + c_w cfg * idx))
   | [] =>
-    (mkb (b_first st) (b_nextw st + 2 * c_w cfg) (b_nfj st) (b_nwf st + 2) [] (b_dict st) (b_flips st) (b_jumps st) (b_wr st),
-     b_nextw st)
+    (mkb (b_first st) (b_nextw st + 2 * c_w cfg) (b_nfj st) (b_nwf st + 2) [] (b_dict st) (b_fjw st) (b_wfw st) (b_wr st),
+     (InWf, b_nextw st))
   end.
 
 Fixpoint zlist_eqb (a b : list Z) : bool :=
@@ -509,25 +559,22 @@ Fixpoint wdict_find (d : list ((Z * list Z) * Z)) (ret : Z) (key : list Z) : opt
   | ((r, k), v) :: d' => if (r =? ret) && zlist_eqb k key then Some v else wdict_find d' ret key
   end.
 
-Definition record_words (st : bstate) (f j : Z) : bstate :=
-  mkb (b_first st) (b_nextw st) (b_nfj st) (b_nwf st) (b_pads st) (b_dict st) (f :: b_flips st) (j :: b_jumps st) (b_wr st).
-
 Definition wdict_add (st : bstate) (ret : Z) (key : list Z) (v : Z) : bstate :=
-  mkb (b_first st) (b_nextw st) (b_nfj st) (b_nwf st) (b_pads st) (((ret, key), v) :: b_dict st) (b_flips st) (b_jumps st) (b_wr st).
+  mkb (b_first st) (b_nextw st) (b_nfj st) (b_nwf st) (b_pads st) (((ret, key), v) :: b_dict st) (b_fjw st) (b_wfw st) (b_wr st).
 
 (* the `while flip_addresses:` loop of insert_wflip_ops.  `rest` = the flip addresses still to place (ascending; Python
-   keeps them descending and pops from the end).  Each iteration fixes the jump word of the previous op: the address of an
-   existing chain, or of a new op that flips the next address. *)
-Fixpoint wflip_chain (cfg : config) (st : bstate) (rest : list Z) (ret : Z) : bstate :=
+   keeps them descending and pops from the end); `prev` = the list holding the op whose jump word is still open.  Each
+   iteration fixes that jump word: the address of an existing chain, or of a new op that flips the next address. *)
+Fixpoint wflip_chain (cfg : config) (st : bstate) (prev : wlist) (rest : list Z) (ret : Z) : bstate :=
   match rest with
-  | [] => record_words st 0 ret                                (* the last op returns; flip word already recorded: 0 here is a no-op entry *)
+  | [] => store st prev ret
   | a :: rest' =>
     match wdict_find (b_dict st) ret rest with
-    | Some chain => record_words st 0 chain
+    | Some chain => store st prev chain
     | None =>
-      let (st1, spot) := get_wflip_spot cfg st in
-      let st2 := wdict_add (record_words st1 a spot) ret rest spot in
-      wflip_chain cfg st2 rest' ret
+      let '(st1, (l, spot)) := get_wflip_spot cfg st in
+      let st2 := wdict_add (store (store st1 prev spot) l a) ret rest spot in
+      wflip_chain cfg st2 l rest' ret
     end
   end.
 
@@ -535,15 +582,18 @@ Fixpoint wflip_chain (cfg : config) (st : bstate) (rest : list Z) (ret : Z) : bs
 Definition flip_addresses (cfg : config) (addr v : Z) : list Z :=
   map (fun i => addr + Z.of_nat i) (filter (fun i => Z.testbit v (Z.of_nat i)) (seq 0 (Z.to_nat (c_w cfg)))).
 
+Definition bit_length (v : Z) : Z := match v with Z0 => 0 | Zpos p | Zneg p => Zpos (Pos.size p) end.
+
 Definition insert_wflip_ops (cfg : config) (st : bstate) (addr v ret : Z) : res bstate :=
-  if v =? 0 then Ok (insert_fj_op cfg st 0 ret)
-  else if negb (in_memory cfg v) then LibError KWflipValue
+  if v =? 0 then insert_fj_op cfg st 0 ret
+  else if negb (in_memory cfg v) || negb (in_memory cfg addr) || negb (in_memory cfg (addr + bit_length v - 1))
+          || negb (in_memory cfg ret) then LibError KOpRange
   else
     match flip_addresses cfg addr v with
     | [] => RawExn IndexError                                  (* flip_addresses.pop() of an empty list *)
     | a :: rest =>
-      let st1 := mkb (b_first st) (b_nextw st) (b_nfj st + 2) (b_nwf st) (b_pads st) (b_dict st) (a :: b_flips st) (b_jumps st) (b_wr st) in
-      Ok (wflip_chain cfg st1 rest ret)
+      do st1 <- insert_fj_op cfg st a 0;
+      Ok (wflip_chain cfg st1 InFj rest ret)
     end.
 
 (* insert_padding: `for i in range(...): self.fj_words += (0, 0)` materialises 2*count words *)
@@ -551,21 +601,23 @@ Definition insert_padding (cfg : config) (st : bstate) (count : Z) : res bstate 
   if c_padlim cfg <? count then RawExn MemoryError
   else Ok (mkb (b_first st) (b_nextw st) (b_nfj st + 2 * count) (b_nwf st)
                (if 0 <? count then (b_nfj st, count) :: b_pads st else b_pads st)
-               (b_dict st) (b_flips st) (b_jumps st) (b_wr st)).
+               (b_dict st) (b_fjw st) (b_wfw st) (b_wr st)).
 
 Definition close_and_add_segment (cfg : config) (st : bstate) : res bstate :=
   if b_nextw st =? b_first st then Ok st
-  else do r <- add_segment_to_fjm cfg (b_wr st) (b_first st) (b_nextw st) (b_nfj st + b_nwf st);
-       Ok (set_wr st (fst r) (snd r)).
+  else do r <- add_segment_to_fjm cfg (b_wr st) (b_first st) (b_nextw st) (b_fjw st ++ b_wfw st) (b_nfj st + b_nwf st);
+       Ok (if snd r then mkb (b_first st) (b_nextw st) 0 0 (b_pads st) (b_dict st) [] [] (fst r)
+           else mkb (b_first st) (b_nextw st) (b_nfj st) (b_nwf st) (b_pads st) (b_dict st) (b_fjw st) (b_wfw st) (fst r)).
 
 Definition insert_new_segment (cfg : config) (st : bstate) (first wfirst : Z) : res bstate :=
   do st1 <- close_and_add_segment cfg st;
-  Ok (mkb first wfirst (b_nfj st1) (b_nwf st1) [] (b_dict st1) (b_flips st1) (b_jumps st1) (b_wr st1)).
+  Ok (mkb first wfirst (b_nfj st1) (b_nwf st1) [] (b_dict st1) (b_fjw st1) (b_wfw st1) (b_wr st1)).
 
 (* insert_reserve_bits: add_segment_to_fjm(..., self.fj_words, []) clears fj_words only *)
 Definition insert_reserve_bits (cfg : config) (st : bstate) (after : Z) : res bstate :=
-  do r <- add_segment_to_fjm cfg (b_wr st) (b_first st) after (b_nfj st);
-  Ok (mkb after (b_nextw st) (if snd r then 0 else b_nfj st) (b_nwf st) [] (b_dict st) (b_flips st) (b_jumps st) (fst r)).
+  do r <- add_segment_to_fjm cfg (b_wr st) (b_first st) after (b_fjw st) (b_nfj st);
+  Ok (mkb after (b_nextw st) (if snd r then 0 else b_nfj st) (b_nwf st) [] (b_dict st)
+          (if snd r then [] else b_fjw st) (b_wfw st) (fst r)).
 
 (* f"{e} in op {op}": str(op) prints every expression of the op *)
 Definition op_message (k : libkind) (es : list expr) : res bstate :=
@@ -578,19 +630,18 @@ Definition in_op {A} (r : res A) (es : list expr) (f : A -> res bstate) : res bs
   | RawExn x => RawExn x
   end.
 
+Definition ranged (r : res bstate) (es : list expr) : res bstate :=
+  match r with LibError _ => op_message KOpRange es | x => x end.
+
 Definition labels_step (cfg : config) (lb : dict Z) (st : bstate) (op : lastop) : res bstate :=
   match op with
   | LFlipJump f j =>
     in_op (exact_eval cfg lb f) [f; j] (fun fv =>
-    in_op (exact_eval cfg lb j) [f; j] (fun jv => Ok (insert_fj_op cfg st fv jv)))
+    in_op (exact_eval cfg lb j) [f; j] (fun jv => ranged (insert_fj_op cfg st fv jv) [f; j]))
   | LWordFlip a v r =>
     in_op (exact_eval cfg lb a) [a; v; r] (fun av =>
     in_op (exact_eval cfg lb v) [a; v; r] (fun vv =>
-    in_op (exact_eval cfg lb r) [a; v; r] (fun rv =>
-    match insert_wflip_ops cfg st av vv rv with
-    | LibError _ => op_message KWflipValue [a; v; r]
-    | x => x
-    end)))
+    in_op (exact_eval cfg lb r) [a; v; r] (fun rv => ranged (insert_wflip_ops cfg st av vv rv) [a; v; r])))
   | LPadding n => insert_padding cfg st n
   | LNewSeg s ws => insert_new_segment cfg st s ws
   | LReserve after => insert_reserve_bits cfg st after
@@ -602,13 +653,10 @@ Fixpoint labels_loop (cfg : config) (lb : dict Z) (st : bstate) (ops : list last
   | op :: rest => do st' <- labels_step cfg lb st op; labels_loop cfg lb st' rest
   end.
 
-Definition labels_resolve (cfg : config) (ops : list lastop) (lb : dict Z) : res bstate :=
-  match ops with
-  | LNewSeg s ws :: rest =>
-    do st <- labels_loop cfg lb (mkb s ws 0 0 [] [] [] [] (mkw [] 0)) rest;
-    close_and_add_segment cfg st
-  | _ => RawExn IndexError      (* ops.popleft() of an empty deque / first op not a NewSegment: the preprocessor always emits one *)
-  end.
+(* labels_resolve; the first op (popleft) is the NewSegment(0) of PreprocessorData.__init__, carried as its wflip start w0 *)
+Definition labels_resolve (cfg : config) (w0 : Z) (ops : list lastop) (lb : dict Z) : res bstate :=
+  do st <- labels_loop cfg lb (mkb 0 w0 0 0 [] [] [] [] (mkw [] 0 [])) ops;
+  close_and_add_segment cfg st.
 
 Definition first_op_assembled (st : bstate) : bool :=
   existsb (fun sg => match sg with (s, l, _, _) => (s =? 0) && (2 <=? l) end) (w_segs (b_wr st)).
@@ -619,11 +667,9 @@ Definition first_op_assembled (st : bstate) : bool :=
 (* the output path: untouched; opened and holding the header and the segment table only; complete *)
 Inductive fstate := NoFile | PartialFile | CompleteFile.
 
-Definition word_ok (cfg : config) (x : Z) : bool := (0 <=? x) && (x <? 2 ^ c_w cfg).
-
-(* struct.pack(f'<{n}{word_format}', *self.data): versions 2 and 3 have reduced every jump word modulo 2^w before *)
-Definition packable (cfg : config) (st : bstate) : bool :=
-  forallb (word_ok cfg) (b_flips st) && (relative_version cfg || forallb (word_ok cfg) (b_jumps st)).
+(* struct.pack(f'<{n}{word_format}', *self.data) needs every word in [0, 2^w) (versions 2 and 3 have replaced the jump
+   words by values reduced modulo 2^w: in range as well) *)
+Definition packable (cfg : config) (wr : wstate) : bool := forallb (word_ok cfg) (w_data wr).
 
 Inductive verdict := VOk | VLib (k : libkind) | VCatchAll (x : rawexn) | VHang.
 Record outcome := mkout { o_verdict : verdict; o_file : fstate }.
@@ -640,30 +686,21 @@ Definition ladder {A} (r : res A) (f : fstate) (k : A -> outcome) : outcome :=
 Definition layout (cfg : config) (t : macro_dict) : res bstate :=
   do t1 <- parse_macros cfg t;
   do r <- resolve_macros cfg t1;
-  labels_resolve cfg (fst r) (snd r).
+  let '(w0, ops, lb) := r in labels_resolve cfg w0 ops lb.
 
 Definition assemble_model (cfg : config) (t : macro_dict) : outcome :=
   ladder (parse_macros cfg t) NoFile (fun t1 =>
   ladder (resolve_macros cfg t1) NoFile (fun r =>
-  ladder (labels_resolve cfg (fst r) (snd r)) NoFile (fun st =>
+  ladder (let '(w0, ops, lb) := r in labels_resolve cfg w0 ops lb) NoFile (fun st =>
   if negb (first_op_assembled st) then mkout (VLib KNoFirstOp) NoFile
   else (* with open(output_file, 'wb'): header, segments; then the data words are packed *)
-    if packable cfg st then mkout VOk CompleteFile else mkout (VCatchAll StructError) PartialFile))).
+    if packable cfg (b_wr st) then mkout VOk CompleteFile else mkout (VCatchAll StructError) PartialFile))).
 
 (* ------------------------------------------------------------------------------------------------------------------ *)
-(** * Guards: one per recorded finding *)
+(** * Guards: one per recorded finding that is still open *)
 
-Definition is_arith (x : rawexn) : bool := match x with ZeroDivisionError | ValueError => true | _ => false end.
-
-(* F7: no all-literal sub-expression divides by zero or shifts by a negative count (what the parser folds) *)
-Definition no_parse_time_arith_error (cfg : config) (t : macro_dict) : bool :=
-  match parse_macros cfg t with RawExn x => negb (is_arith x) | _ => true end.
-
-(* F8: every word the program asks to store fits the word format of its version *)
-Definition words_in_range (cfg : config) (t : macro_dict) : bool :=
-  match layout cfg t with Ok st => packable cfg st | _ => true end.
-
-(* F9 (and the never-returning variants): no count / magnitude beyond what can be materialised *)
+(* F9b (and the never-returning variants): no count / magnitude beyond what can be materialised - a pad of more ops than
+   memory holds, a rep count or a power that does not finish, a shift that cannot be allocated *)
 Definition counts_materialisable (cfg : config) (t : macro_dict) : bool :=
   match o_verdict (assemble_model cfg t) with VCatchAll MemoryError | VHang => false | _ => true end.
 
@@ -671,36 +708,14 @@ Definition counts_materialisable (cfg : config) (t : macro_dict) : bool :=
 Definition expr_depth_ok (cfg : config) (t : macro_dict) : bool :=
   match o_verdict (assemble_model cfg t) with VCatchAll RecursionError => false | _ => true end.
 
-(* new finding: a source label spelled like the internal "_.wflip_area_start_<i>" labels (KeyError in insert_label) *)
+(* a source label spelled like the internal "_.wflip_area_start_<i>" labels (KeyError in insert_label); the same
+   guard excludes a dictionary without the main macro ("", 0), which parse_macro_tree never returns *)
 Definition internal_labels_free (cfg : config) (t : macro_dict) : bool :=
-  match parse_macros cfg t with
-  | Ok t1 => match resolve_macros cfg t1 with RawExn KeyError => false | _ => true end
-  | _ => true
-  end.
+  match o_verdict (assemble_model cfg t) with VCatchAll KeyError => false | _ => true end.
 
-(* new finding: a diagnostic that has to print an integer of more than 4300 digits (ValueError inside the handler) *)
+(* a diagnostic that has to print an integer of more than 4300 digits (ValueError inside the handler) *)
 Definition diagnostics_printable (cfg : config) (t : macro_dict) : bool :=
-  match parse_macros cfg t with
-  | Ok t1 =>
-    match resolve_macros cfg t1 with
-    | RawExn ValueError => false
-    | Ok r => match labels_resolve cfg (fst r) (snd r) with RawExn ValueError => false | _ => true end
-    | _ => true
-    end
-  | _ => true
-  end.
-
-(* domain of the trees the parser can produce: operator arities, and the main macro exists *)
-Fixpoint expr_wf (e : expr) : bool :=
-  match e with
-  | EOp o args => (List.length args =? opname_arity o)%nat &&
-                  (fix all (l : list expr) : bool := match l with [] => true | a :: t => expr_wf a && all t end) args
-  | _ => true
-  end.
-Definition stmt_wf (s : stmt) : bool := forallb expr_wf (stmt_exprs s).
-Definition tree_wf (t : macro_dict) : bool :=
-  forallb (fun nm => forallb stmt_wf (m_ops (snd nm))) t &&
-  match find_macro t main_macro_name with Some _ => true | None => false end.
+  match o_verdict (assemble_model cfg t) with VCatchAll ValueError => false | _ => true end.
 
 (* the property on an outcome *)
 Definition specific (o : outcome) : bool := match o_verdict o with VOk | VLib _ => true | _ => false end.
@@ -714,9 +729,10 @@ Definition libkind_code (k : libkind) : N :=
   match k with
   | KNegPow => 1 | KBadMath => 2 | KBadLabelSwap => 3 | KRepArgs => 4 | KCantEvalLabel => 5
   | KMacroUndefined => 10 | KMacroDepth => 11 | KLabelTwice => 12 | KRepTimes => 13 | KPadEval => 14
-  | KPadNonPositive => 15 | KPadUnaligned => 16 | KSegmentEval => 17 | KSegmentUnaligned => 18
+  | KPadNonPositive => 15 | KPadUnaligned => 16 | KPadTooBig => 21 | KSegmentEval => 17 | KSegmentUnaligned => 18
   | KReserveEval => 19 | KReserveUnaligned => 20
-  | KOpEval => 30 | KWflipValue => 31 | KBoundsUnaligned => 32 | KNoSpace => 33 | KAddSegment => 34 | KNoFirstOp => 35
+  | KOpEval => 30 | KOpRange => 31 | KBoundsUnaligned => 32 | KNoSpace => 33 | KAddSegment => 34 | KNoFirstOp => 35
+  | KWriterData => 40
   end%N.
 
 Definition rawexn_code (x : rawexn) : N :=
